@@ -388,3 +388,103 @@ def oracle_c13_reuse(world):
           'the stream that owned id %d delivered %d of %d elements after the duplicate request' % (sid, len(got), len(exp)),
           None, **facts)
     return out
+
+
+# ---------------------------------------------------------------------------------------------
+# C10: "the stream's id can be used again" - a peer that re-uses an id the moment its stream has ended
+# ---------------------------------------------------------------------------------------------
+
+def gen_id_reuse_after_end(seed, opts=None):
+    rng = random.Random(seed ^ 0x1DE2D)
+    role = _pick(rng, [(2, 'server'), (1, 'client')])
+    framing = _pick(rng, [(2, 'tcp'), (1, 'ws')])
+    sid = (1 if role == 'server' else 2) + 2 * rng.randint(0, 5)
+    first_kind = _pick(rng, [(3, 'rr'), (2, 'stream'), (2, 'channel')])
+    ending = _pick(rng, [(3, 'cancel'), (2, 'complete')])
+    count = rng.randint(1, 4)
+    ia0 = {'id': 0, 'kind': first_kind, 'by': 'peer', 'sid': sid}
+    if first_kind == 'rr':
+        # cancelled while the handler's future is still pending / answered at once
+        ia0['resp'] = {'mode': 'delay' if ending == 'cancel' else 'now', 'delay': _pick(rng, [(1, 0.05), (1, 0.002)]), 'dlen': 20, 'mlen': None}
+        if rng.random() < 0.3:
+            ia0['resp']['hdelay'] = ['hops', rng.randint(1, 3)]
+    else:
+        ia0['resp'] = {'src': _pick(rng, [(1, 'manual'), (1, 'gen'), (1, 'agen')]), 'count': count, 'lens': [[rng.randint(1, 40), None]],
+                       'end': _pick(rng, [(1, 'separate'), (1, 'flag')])}
+        if ending == 'cancel':
+            ia0['resp']['pacing'] = 0.02
+        if first_kind == 'channel':
+            ia0['resp']['sub'] = {'initial_n': 1, 'refill': [1]}
+    again_kind = _pick(rng, [(2, 'rr'), (1, 'stream'), (1, 'fnf')])
+    ia1 = {'id': 1, 'kind': again_kind, 'by': 'peer', 'sid': sid, 'resp': {'mode': 'now', 'dlen': 10, 'mlen': None}}
+    if again_kind == 'stream':
+        ia1['resp'] = {'src': 'gen', 'count': 2, 'lens': [[8, None]], 'end': 'separate'}
+    t_type = {'rr': 'REQUEST_RESPONSE', 'stream': 'REQUEST_STREAM', 'channel': 'REQUEST_CHANNEL', 'fnf': 'REQUEST_FNF'}
+    script = []
+    if role == 'server':
+        script.append({'at': 0.0, 'frame': {'t': 'SETUP', 'keepalive_ms': 10_000_000, 'lifetime_ms': 20_000_000}})
+    first = {'t': t_type[first_kind], 'sid': sid, 'n': 0x7FFFFFFF, 'data': app.content(0, 'q', 0, 'D', 20).hex()}
+    if first_kind == 'channel':
+        first['complete'] = True  # the peer's own direction is closed from the start
+    script.append({'at': 0.005, 'frame': first})
+    if ending == 'cancel':
+        t_end = round(0.005 + _pick(rng, [(1, 0.0), (1, 0.001), (1, 0.01)]), 4)
+        script.append({'at': t_end, 'frame': {'t': 'CANCEL', 'sid': sid}})
+        gap = _pick(rng, [(3, 0.0), (1, 0.001), (1, 0.02)])  # 0: in the same write as the CANCEL
+    else:
+        t_end = 0.2  # long after the response / the last element
+        gap = 0.0
+    script.append({'at': round(t_end + gap, 4), 'frame': {'t': t_type[again_kind], 'sid': sid, 'n': 5, 'data': app.content(1, 'q', 0, 'D', 20).hex()}})
+    plan = {'exec': 'peer', 'profile': 'id-reuse-after-end', 'seed': seed, 'role': role, 'framing': framing, 'loop': {'eps': 0.0},
+            'endpoint': {'keepalive_ms': 10_000_000, 'read_buf': _pick(rng, [(3, 1024), (1, 7)])}, 'auto': {'keepalive': 'echo'},
+            'link': {'c2s': {'latency': 0.001, 'seed': 1, 'chunk': _pick(rng, [(3, 'all'), (1, 'frame'), (1, 3)])},
+                     's2c': {'latency': 0.001, 'seed': 2, 'chunk': _pick(rng, [(3, 'all'), (1, 'frame'), (1, 3)])}},
+            'script': script, 'interactions': [ia0, ia1], 'horizon': 1.0, 'nontrivial': True,
+            'reuse': {'sid': sid, 'first_kind': first_kind, 'again_kind': again_kind, 'ending': ending}}
+    return plan
+
+
+def oracle_c10_reuse(world):
+    out = []
+    V = lambda cls, msg, seq=None, **f: out.append(Violation('C10', 'C10.' + cls, msg, seq, **f))
+    plan = world.plan
+    h = world.history
+    ru = plan['reuse']
+    role = plan['role']
+    sid = ru['sid']
+    facts = dict(role=role, first_kind=ru['first_kind'], again_kind=ru['again_kind'], ending=ru['ending'], framing=plan.get('framing', 'tcp'))
+    mark = next((e['seq'] for e in h if e['k'] == 'mark'), float('inf'))
+    in_dir = 'c2s' if role == 'server' else 's2c'
+    out_dir = 's2c' if role == 'server' else 'c2s'
+    again = [e for e in h if e['k'] == 'wire' and e['dir'] == in_dir and e['f']['sid'] == sid and e['f']['type'] in REQ_TYPES]
+    if len(again) < 2:
+        return out
+    second = again[1]['seq']
+    if ru['ending'] == 'complete':
+        # only judged if the first stream had really ended before the id was used again
+        ended = [e for e in h if e['k'] == 'wire' and e['dir'] == out_dir and e['f']['sid'] == sid and e['seq'] < second
+                 and (e['f']['type'] == 'ERROR' or (e['f']['type'] == 'PAYLOAD' and e['f'].get('complete')))]
+        if not ended:
+            return out
+    hnd = [e for e in h if e['k'] == 'hnd' and e.get('iid') == 1 and e['seq'] < mark]
+    emitted = [e for e in h if e['k'] == 'wire' and e['dir'] == out_dir and e['f']['sid'] == sid and e['seq'] > second and e['seq'] < mark]
+    rejected = [e for e in emitted if e['f']['type'] == 'ERROR']
+    if rejected:
+        V('reused_id_not_served', 'request re-using id %d after its stream ended (%s) was answered with ERROR %s'
+          % (sid, ru['ending'], rejected[0]['f'].get('code_name')), rejected[0]['seq'], **facts)
+    elif not hnd:
+        V('reused_id_not_served', 'request re-using id %d after its stream ended (%s) never reached the handler' % (sid, ru['ending']),
+          None, **facts)
+    elif ru['again_kind'] in ('rr', 'stream'):
+        n = 1 if ru['again_kind'] == 'rr' else 2
+        ln = 10 if ru['again_kind'] == 'rr' else 8
+        exp = [app.nb(app.content(1, 'r', k, 'D', ln)) for k in range(n)]
+        got = [e['f']['data'] for e in emitted if e['f']['type'] == 'PAYLOAD' and (e['f']['data'] or e['f']['metadata'])]
+        got = [g for g in got if g.startswith(b'D01')]
+        if got != exp:
+            V('reused_id_not_served', 'request re-using id %d after its stream ended (%s): %d of %d response payloads'
+              % (sid, ru['ending'], len(got), len(exp)), None, **facts)
+    fin = next((e for e in h if e['k'] == 'final'), None)
+    if fin is not None and sid in fin.get('streams', []):
+        V('stream_leaked', 'stream %d still registered at the end' % sid, fin['seq'], ep=role, **facts)
+    return out
